@@ -582,11 +582,18 @@ class World20:
             V = p['mv']
             ref = self.model[mvid]
             intdt = self.cfg['mvs'][mvid].get('cont') == 'nd' and 'int' in str(self.cfg['mvs'][mvid].get('dtype'))
+            nddt = None
+            if self.cfg['mvs'][mvid].get('cont') == 'nd' and not self.cfg['mvs'][mvid].get('shape'):
+                nddt = np.dtype(self.cfg['mvs'][mvid].get('dtype', 'float64'))
+                if nddt == np.dtype('float64'):
+                    nddt = None
             for k in list(ref):
                 ci = self.cidx[k]
                 if ci < len(V):
                     # an integer ndarray can only hold the integer part in place (numpy assignment semantics)
                     new = int(V[ci]) if intdt and V[ci] == V[ci] else V[ci]
+                    if nddt is not None and not intdt:
+                        new = nddt.type(V[ci])      # a float32 array holds the rounded value
                     try:
                         changed = bool(ref[k] != new)
                     except Exception:
